@@ -147,7 +147,10 @@ pub fn drive_stream(t: &mut Tracer, tier: &str, seed: u64, plan: Option<String>)
     // (a3) searched (key, IV) pairs (one-off helper in main.rs) for which some round starts with one of the memory words of F equal to ZERO (R1 = 0 at word 1181;
     //      R2 = 0 at words 1350, 671, 663; 2^-32 per round): the specification re-classifies the sessions itself (class suffix .r-zero)
     for (k, v, at) in [("e70bd263a0935f21f220be90fd8a5f6e", "7cf3f0990175b2e6f087463ca560bafe", 1181usize), ("2bb9c5b2e1aad8f813054bcd708cc208", "a563b1c76476c983ae3b8b543b9ffff1", 1350),
-                       ("67d2d3a7837c0f32d7c1009b6412670c", "0d87080ddcf1fe85b74f1c3f96626898", 671), ("b79753b3134cbc0293b5e04c1a3aa8e9", "76cb871d533823f4b29fc4ac2ca5deb3", 663)] {
+                       ("67d2d3a7837c0f32d7c1009b6412670c", "0d87080ddcf1fe85b74f1c3f96626898", 671), ("b79753b3134cbc0293b5e04c1a3aa8e9", "76cb871d533823f4b29fc4ac2ca5deb3", 663),
+                       // ... or with an all-zero input word to one of the S-box layers of F (v at words 1139, 1050; u at word 433)
+                       ("db5f6f7553db72ce976a37a767168521", "2f05059a7c60bdd1969b8fdba13a56eb", 1139), ("f9baed7ccbecb481efe1bb158f4492d7", "2fb0d02281ce990a65eb5ac160bac024", 1050),
+                       ("de9344d845285e538770db3927effd7b", "81a1bd9c5f25a2b0721ec3ff1da2af57", 433)] {
         let (key, iv) = (hex::decode(k).unwrap(), hex::decode(v).unwrap());
         run_requests_flag(t, &sess(), &key, &iv, &[at - 3, 8, 5], true);
         run_requests_flag(t, &sess(), &key, &iv, &[at + 10], true);
@@ -251,7 +254,9 @@ pub fn drive_eea(t: &mut Tracer, tier: &str, seed: u64) {
     eea_event(t, &sess(), &ck1, 0x66035492, 15, 0, 193, &m1);
     eia_event(t, &sess(), &[0u8; 16], 0, 0, 0, 1, &[0]);
     // LENGTH = 0 for the confidentiality function too (zero output words), with an empty and a non-empty message, extreme COUNT / BEARER / DIRECTION
-    for (count, bearer, dir, nw) in [(0u32, 0u32, 0u32, 0usize), (0xffff_ffff, 31, 1, 0), (0x8000_0000, 16, 1, 3), (1, 31, 0, 1)] {
+    // (every combination of the extreme COUNT / BEARER / DIRECTION values: an IV layout that skips work when its head word is zero shows only for 0 / 0 / 1)
+    for (count, bearer, dir, nw) in [(0u32, 0u32, 0u32, 0usize), (0, 0, 1, 2), (0, 31, 0, 1), (0, 31, 1, 0), (0xffff_ffff, 0, 0, 1), (0xffff_ffff, 0, 1, 2), (0xffff_ffff, 31, 0, 3), (0xffff_ffff, 31, 1, 0),
+                                     (0x8000_0000, 16, 1, 3), (1, 31, 0, 1), (0, 1, 1, 1), (1, 0, 1, 1)] {
         let key = rng.bytes(16);
         let msg = words(&mut rng, nw);
         eea_event(t, &sess(), &key, count, bearer, dir, 0, &msg);
